@@ -3,6 +3,8 @@
    ExtrOcamlString: ascii -> char, string -> char list.  No Extract Constant. N, Z,
    positive, nat stay the extracted inductives. *)
 From ChessV Require Import Bits Types Board Moves Rays MoveGen Eval Abs San Search Game Regex.
+From ChessV Require Import Magic UciProofs UciGen InvProofs InvProofs2 SuccProofs SanProofs EvalProofs2.
+From ChessV.gen Require Import Magics.
 From ChessV Require Rules.
 From ChessV.gen Require Import InputRegex Consts.
 From Coq Require Import ExtrOcamlBasic ExtrOcamlString.
@@ -25,4 +27,8 @@ Extraction "model.ml"
   mm root_values search ab sort_moves
   apply_by_coords apply_by_notation engine_select book_next BOOK book_line_of
   full_match COORDINATE_RE ALGEBRAIC_RE
-  cmove_eqb squares bits_of popcount.
+  cmove_eqb squares bits_of popcount
+  (* decidable hypotheses of the property theorems, evaluated on every scenario node *)
+  invb move_okb counters_okb gen_shapeb fitsb gen_wfb position_likeb legal_materialb
+  (* the magic-table model with the entries of the current build *)
+  magic_rook magic_bishop entries_valid ROOK_ENTRIES BISHOP_ENTRIES.
